@@ -593,6 +593,7 @@ class ExpTNA(Exception):
 
 
 _SENT = object()
+INITIAL = "<activation>"
 
 
 class Result:
@@ -648,7 +649,7 @@ class Interp:
         self.last_failed_transition = None
         self.events_run = 0
         if is_async or True:
-            self.queue.append(("__initial__", (), {}))
+            self.queue.append((INITIAL, (), {}))
         self.stats = Counter()
         self.fired = []  # indices of executed transitions, in order
 
@@ -777,7 +778,7 @@ class Interp:
                     self.stats["dropped_on_failure"] += len(self.queue)
                     self.queue.clear()
                     raise
-                if first is _SENT and item[0] != "__initial__":
+                if first is _SENT and item[0] is not INITIAL:
                     first = r
         finally:
             self.processing = False
@@ -786,13 +787,13 @@ class Interp:
     def trigger(self, item):
         ev, args, kwargs = item
         self.events_run += 1
-        if ev == "__initial__":
+        if ev is INITIAL:  # the interpreter's own activation item; a user event called "__initial__" is an ordinary unknown event
             if self.state is not None:
                 raise HarnessError("initial activation with a state already set")
             start = self.init_index if self.start is None else self.start
             self.state = start
             ctx = dict(event="__initial__", state=self.sid(start), source=None, target=self.sid(start), args=args, kw=kwargs)
-            self.run_group(self.group_cbs("enter", None, ev, start), ctx, "enter")
+            self.run_group(self.group_cbs("enter", None, "__initial__", start), ctx, "enter")
             return None
         src = self.state
         if src is None:
